@@ -65,6 +65,16 @@ func (e *Endpoint) Go(f func()) {
 	}()
 }
 
+// GoID is Go with a goroutine identity rooted at a canonical name (e.g. a message id), so
+// that the identity of handler goroutines does not depend on the dispatcher's history.
+func (e *Endpoint) GoID(id string, f func()) {
+	go func() {
+		runtime.SetSimTag(e.Tag)
+		runtime.SetSimPath(H(e.net.r.Seed, "go", e.Name, e.Inc, id))
+		f()
+	}()
+}
+
 // ---------------------------------------------------------------- messages
 
 type msgKind int
@@ -750,7 +760,7 @@ func (e *Endpoint) serveUnary(m *message) {
 	if !m.dup {
 		e.serving.Store(call, true)
 	}
-	e.Go(func() {
+	e.GoID(m.id, func() {
 		defer cancel()
 		defer e.serving.Delete(call)
 		resp, err := md.Handler(se.impl, ctx, func(in any) error { return unmarshal(payload, in) }, nil)
@@ -1040,7 +1050,7 @@ func (e *Endpoint) serveStream(s *simStream, m *message) {
 	}
 	s.sctx, s.scancel = e.handlerCtx(m)
 	ss := &serverStream{s: s, e: e}
-	e.Go(func() {
+	e.GoID(m.id, func() {
 		err := sd.Handler(se.impl, ss)
 		s.handlerDone.Store(true)
 		s.scancel()
